@@ -29,7 +29,7 @@ func (m *Map[K, V]) ToJSON() ([]byte, error) {
 	index := 0
 
 	for it.Next() {
-		km, err := json.Marshal(it.Key())
+		km, err := memberName(it.Key())
 		if err != nil {
 			return nil, err
 		}
@@ -76,12 +76,35 @@ func (m *Map[K, V]) FromJSON(data []byte) error {
 		return err
 	}
 
+	// position of every member name in the input, taken from the token stream
+	// (searching the raw text would also find the name inside values)
+	position := make(map[string]int)
+	decoder := json.NewDecoder(bytes.NewReader(data))
+	if _, err := decoder.Token(); err == nil {
+		for n := 0; decoder.More(); n++ {
+			token, err := decoder.Token()
+			if err != nil {
+				break
+			}
+			if name, ok := token.(string); ok {
+				position[name] = n
+			}
+			var value json.RawMessage
+			if decoder.Decode(&value) != nil {
+				break
+			}
+		}
+	}
+
 	index := make(map[K]int)
 	var keys []K
 	for key := range elements {
 		keys = append(keys, key)
-		esc, _ := json.Marshal(key)
-		index[key] = bytes.Index(data, esc)
+		var name string
+		if esc, err := memberName(key); err == nil {
+			_ = json.Unmarshal(esc, &name)
+		}
+		index[key] = position[name]
 	}
 
 	byIndex := func(key1, key2 K) int {
@@ -97,6 +120,19 @@ func (m *Map[K, V]) FromJSON(data []byte) error {
 	}
 
 	return nil
+}
+
+// memberName encodes a key as a JSON object member name the way encoding/json
+// encodes map keys: strings as they are, other keys (integers) as quoted text.
+func memberName[K comparable](key K) ([]byte, error) {
+	name, err := json.Marshal(key)
+	if err != nil {
+		return nil, err
+	}
+	if len(name) > 0 && name[0] != '"' {
+		return json.Marshal(string(name))
+	}
+	return name, nil
 }
 
 // UnmarshalJSON @implements json.Unmarshaler
